@@ -180,7 +180,7 @@ impl Monitor for C02 {
 
     fn sidecar(&self, env: &Env) -> Vec<SidecarReport> {
         if env.tier == Tier::Thorough {
-            vec![crate::miri::run_miri("C02", "diff", 16, 120)]
+            vec![crate::miri::run_miri("C02", "diff", 16, 60)]
         } else {
             vec![]
         }
